@@ -275,8 +275,10 @@ func (s *PfcpServer) sendReqTo(msg message.Message, addr net.Addr) error {
 		return errors.Errorf("sendReqTo: invalid req type(%d)", msg.MessageType())
 	}
 
-	txtr := NewTxTransaction(s, addr, s.txSeq)
-	s.txSeq++
+	// PFCP sequence numbers are 24 bits wide
+	seq := s.txSeq & 0xffffff
+	txtr := NewTxTransaction(s, addr, seq)
+	s.txSeq = seq + 1
 	s.txTrans[txtr.id] = txtr
 
 	return txtr.send(msg)
